@@ -62,7 +62,25 @@ func (mc *meshCase) build() modeling.Mesh {
 	}
 	idx := append([]int{}, mc.Idx...)
 	m := modeling.NewMesh(topo, idx)
+	bulkV1 := len(mc.Attrs) > 64
+	if bulkV1 {
+		// Set*Attribute copies the attribute table on every call
+		all := map[string][]float64{}
+		for _, a := range mc.Attrs {
+			if a.Arity == 1 {
+				d := make([]float64, mc.N)
+				for i := range d {
+					d[i] = a.Data[i][0]
+				}
+				all[a.Name] = d
+			}
+		}
+		m = m.SetFloat1Data(all)
+	}
 	for _, a := range mc.Attrs {
+		if bulkV1 && a.Arity == 1 {
+			continue
+		}
 		switch a.Arity {
 		case 1:
 			d := make([]float64, mc.N)
@@ -195,6 +213,8 @@ type genOpts struct {
 	Splat bool
 	// Salt varies the per-file reader kinds between the sub-cases of one history
 	Salt uint64
+	// Wide: the directed wide-ASCII-row mesh (see wide.go)
+	Wide *wideSpec
 }
 
 type paletteEntry struct {
@@ -247,6 +267,10 @@ func genMesh(r *rand.Rand, o genOpts) *meshCase {
 		if n < 3 {
 			n = 3 + r.Intn(6)
 		}
+	}
+	if o.Wide != nil {
+		n = len(o.Wide.Widths)
+		mc.Tri = r.Intn(3) == 0
 	}
 	mc.N = n
 
@@ -421,6 +445,9 @@ func genMesh(r *rand.Rand, o genOpts) *meshCase {
 		mc.Attrs = nil
 		add(paletteEntry{modeling.TexCoordAttribute, 2, 1, []string{"unit", "f64", "f32", "wide"}})
 	}
+	if o.Wide != nil {
+		mc.Attrs = wideAttrs(r, *o.Wide)
+	}
 	if o.Splat {
 		// SplatPly writes a fixed table: make sure it has something to write
 		for _, e := range recognisedPalette {
@@ -522,6 +549,9 @@ func splatWriters() []wspec {
 }
 
 func genConfig(r *rand.Rand, mc *meshCase, o genOpts) config {
+	if o.Wide != nil {
+		return wideConfig(r, mc)
+	}
 	if o.Splat {
 		return config{Kind: "splat", Writers: splatWriters(), Unspecified: false}
 	}
